@@ -55,6 +55,9 @@ CHECKS = {
  "C18": dict(cat="model_checking",
    text="CustomPreOCF with one symbolic integer rank per world (0..3) and arbitrary formula tables: formula_rank = min over models / undefined, conditional_acceptance (incl. unsatisfiable antecedent), marginalize for every proper subset of atoms (min over extensions, signature order), compute_conditionalization / filter (exact world set and ranks), ranks2tpo/tpo2ranks (layers preserve the order). N=2 fully, N=3 for formula_rank and marginalize (thorough: all).",
    ref="3 C18", tech="symbolic execution with symbolic integers (z3 Int) for ranks and truth tables for formulas over the real PreOCF code; per-path unsat VC against the defining law"),
+ "C17": dict(cat="model_checking",
+   text="RandomMinCRepPreOCF and c_inference_pareto_front on symbolic bases: the c-inference preprocessing runs symbolically (paths fix the minimal-correction-set lists), the concrete impact CSP of a path is optimised by the genuine z3, and z3 then decides against ALL integer vectors: impacts non-negative, the induced ranking accepts every base conditional (for every base on the path), Pareto-minimal (no smaller c-representation), rank(w) = sum of impacts of falsified conditionals, acceptance verdict = rank comparison; front: every member a Pareto-minimal c-representation, no duplicates, no undominated c-representation missing, enumeration stops. Bounds N<=3, M<=3. Found and fixed: front enumeration never terminating / AttributeError.",
+   ref="3 C17", tech=SYMEX + "; quantifier-free minimality/completeness queries over unbounded integers"),
 }
 NA = {
  "C10": "ANTLR-generated parser interpreted by the antlr4 runtime: symbolic inputs are concretised at the first DFA lookup, CrossHair gave an unsound 'Confirmed' (DFA-cache nondeterminism) and no verdict in 8 min for |s|<=3; an SMT model of ALL(*) would be a model of the runtime, not the real code (DESIGN.md 3 C10)",
